@@ -78,7 +78,7 @@ func execCase(c core.Case) []string {
 			if err != nil {
 				panic(err)
 			}
-			p = newPCase(cd)
+			p = newPCase(cd, false)
 		}
 		return p
 	}
@@ -113,7 +113,15 @@ func execCase(c core.Case) []string {
 			if p != nil {
 				p.close()
 			}
-			p = newPCase(cd)
+			discard := false
+			if s, has := a["discard"]; has {
+				if s != "0" && s != "1" {
+					out = append(out, "bad-op")
+					break
+				}
+				discard = s == "1"
+			}
+			p = newPCase(cd, discard)
 			if m != nil {
 				m.close()
 				m = nil
@@ -292,7 +300,17 @@ func execNode(a map[string]string) string {
 			return "bad-op"
 		}
 	}
-	r := runNodeCase(blocks, fails, ver, txs, 20, ih)
+	var extra []string
+	for _, o := range []struct{ key, env string }{{"discard", "TMH_C05_DISCARD"}, {"noempty", "TMH_C05_NOEMPTY"}, {"retain", "TMH_C05_RETAIN"}} {
+		if s, has := a[o.key]; has {
+			v, okv := natTok(s)
+			if !okv || v > 100 {
+				return "bad-op"
+			}
+			extra = append(extra, o.env+"="+strconv.Itoa(v))
+		}
+	}
+	r := runNodeCase(blocks, fails, ver, txs, 20, ih, extra)
 	statMu.Lock()
 	for _, l := range r.Trace {
 		if strings.HasPrefix(l, "pre ") {
@@ -355,7 +373,7 @@ func execNode(a map[string]string) string {
 		wf = fmt.Sprintf("0:journal-commits-%d-app-height-%d", committed, r.FinalApp)
 	}
 	heq := bit(r.FinalHashEq)
-	return fmt.Sprintf("done app=%d store=%d state=%d heq=%s wf=%s hs=%s inc=%s", r.FinalApp, r.FinalStore, r.FinalState, heq, wf, hs, incarnations(r))
+	return fmt.Sprintf("done app=%d store=%d state=%d heq=%s wf=%s hs=%s inc=%s", r.FinalApp, r.FinalStore, r.FinalState, heq, wf, hs, incOrDash(a, r))
 }
 
 // incarnations: per process incarnation, the (app/store/state) triple it found, the triple right
@@ -397,6 +415,22 @@ func incarnations(r nodeResult) string {
 		i++
 	}
 	return strings.Join(incs, ";")
+}
+
+// with create_empty_blocks=false the number of own votes (rounds) before a commit depends on when
+// transactions arrive: the fail index no longer determines the crash position, so the
+// per-incarnation prediction is not compared (the oracle still judges the run)
+func incOrDash(a map[string]string, r nodeResult) string {
+	if v, has := a["noempty"]; has && v != "0" {
+		return "-"
+	}
+	// with transactions around, a proposal signed by an earlier incarnation can conflict with the
+	// one rebuilt after the restart (privval refuses, the height takes another round, two more vote
+	// fail points): positions are compared for runs without transactions only
+	if a["txs"] != "-" && a["txs"] != "" {
+		return "-"
+	}
+	return incarnations(r)
 }
 
 func preShape(l string) string {
@@ -631,6 +665,9 @@ func genChain(r *rand.Rand, n int) string {
 		bs[i] = strings.Join(ts, ".")
 	}
 	ih := []string{"", "", "", " ih=1", " ih=2", " ih=5", " ih=100"}[r.Intn(7)]
+	if r.Intn(3) == 0 {
+		ih += " discard=1" // storage.discard_abci_responses
+	}
 	if n == 0 {
 		return "chain n=0 txs=-" + ih
 	}
@@ -858,7 +895,8 @@ func gen(r *rand.Rand, tier string, emit func(core.Case)) {
 		nNode = 0
 		for idx := 0; idx <= 36; idx++ { // every fail point of the first three heights
 			second := []string{"", fmt.Sprintf(",%d", r.Intn(6)), fmt.Sprintf(",%d,%d", r.Intn(6), r.Intn(6))}[idx%3]
-			emit(core.Case{Kind: "node", Ops: []string{fmt.Sprintf("node blocks=3 fails=%d%s mp=%s txs=%s", idx, second, []string{"v0", "v1"}[idx%2], "1,2,17,8,3,9")}})
+			opt := []string{"", " discard=1", " retain=1", " noempty=1"}[idx%4]
+			emit(core.Case{Kind: "node", Ops: []string{fmt.Sprintf("node blocks=3 fails=%d%s mp=%s txs=%s%s", idx, second, []string{"v0", "v1"}[idx%2], []string{"-", "1,2,17,8,3,9"}[(idx/2)%2], opt)}})
 		}
 		nNode = 20
 	}
@@ -872,7 +910,7 @@ func gen(r *rand.Rand, tier string, emit func(core.Case)) {
 			fails = append(fails, strconv.Itoa(r.Intn(13)))
 		}
 		var txs []string
-		for j := r.Intn(6); j > 0; j-- {
+		for j := r.Intn(6) * (i % 2); j > 0; j-- {
 			txs = append(txs, strconv.Itoa(txAlphabet[r.Intn(len(txAlphabet))]+10*r.Intn(3)*0))
 		}
 		ts := "-"
@@ -880,6 +918,9 @@ func gen(r *rand.Rand, tier string, emit func(core.Case)) {
 			ts = strings.Join(txs, ",")
 		}
 		ih := []string{"", "", " ih=3", " ih=50"}[r.Intn(4)]
+		// configuration corners of the commit pipeline: responses not kept per height, no empty
+		// blocks, pruning below the application's RetainHeight
+		ih += []string{"", "", " discard=1", " discard=1", " noempty=1", " retain=1", " retain=2 discard=1"}[r.Intn(7)]
 		emit(core.Case{Kind: "node", Ops: []string{fmt.Sprintf("node blocks=%d fails=%s mp=%s txs=%s%s", blocks, strings.Join(fails, ","), []string{"v0", "v1"}[r.Intn(2)], ts, ih)}})
 	}
 }
